@@ -39,6 +39,7 @@ func TestVerifC14(t *testing.T) {
 	}
 
 	p := &c14Parent{t: t, root: t.TempDir()}
+	p.canImm = vc14.CanImmutable(p.root)
 	defer p.close()
 	vutil.Main(t, p.gen, p.run)
 }
@@ -130,7 +131,7 @@ func c14Child(f []string) []string {
 
 		return []string{"ok"}
 	case "save":
-		return c14Save(f[1], f[2], f[3])
+		return c14Save(f[1], f[2], f[3], f[4])
 	default:
 		panic("unknown command " + f[0])
 	}
@@ -143,7 +144,7 @@ func must(err error) {
 }
 
 // c14Save performs one real save.  Answer: committed newLen finalOK oldSum newSum.
-func c14Save(variant, sizeS, seedS string) []string {
+func c14Save(variant, sizeS, seedS, probe string) []string {
 	size, _ := strconv.Atoi(sizeS)
 	seed, _ := strconv.ParseUint(seedS, 10, 64)
 	dest := c14c.dest
@@ -155,7 +156,7 @@ func c14Save(variant, sizeS, seedS string) []string {
 	case "writedb":
 		leases := c14Leases(size, seed, false)
 		expected = c14Expected(leases)
-		vc14.Window(func() { err = writeDB(dest, leases) })
+		vc14.WithFault(probe, dest, func() { vc14.Window(func() { err = writeDB(dest, leases) }) })
 	case "dbstore":
 		if c14c.srv == nil {
 			s := &server{conf: &ServerConfig{dbFilePath: dest}}
@@ -185,7 +186,7 @@ func c14Save(variant, sizeS, seedS string) []string {
 			stored = append(stored, fromLease(l))
 		}
 		expected = c14Expected(stored)
-		vc14.Window(func() { err = s.dbStore() })
+		vc14.WithFault(probe, dest, func() { vc14.Window(func() { err = s.dbStore() }) })
 	case "migrate":
 		// The legacy file has been put by the preceding C14.put line.
 		oldPath := filepath.Join(c14c.w, dbFilename)
@@ -204,13 +205,17 @@ func c14Save(variant, sizeS, seedS string) []string {
 		}
 		expected = c14Expected(leases)
 		conf := &ServerConfig{WorkDir: c14c.w, DataDir: filepath.Join(c14c.w, "data")}
-		vc14.Window(func() { err = migrateDB(conf) })
+		vc14.WithFault(probe, dest, func() { vc14.Window(func() { err = migrateDB(conf) }) })
 	default:
 		panic("unknown variant " + variant)
 	}
 
 	after, rerr := os.ReadFile(dest)
 	finalOK := err == nil && rerr == nil && bytes.Equal(after, expected)
+	if probe == "faildir" {
+		// The save cannot succeed; it must say so and leave the file alone.
+		finalOK = err != nil && vc14.FileSum(dest) == oldSum
+	}
 
 	return []string{vutil.B(err == nil), strconv.Itoa(len(after)), vutil.B(finalOK), oldSum, vc14.FileSum(dest)}
 }
@@ -229,6 +234,8 @@ type c14Parent struct {
 	fsDir   string
 	fsFiles map[int]*os.File
 	fsSeen  map[string]bool
+
+	canImm bool
 }
 
 func (p *c14Parent) close() {
@@ -236,6 +243,7 @@ func (p *c14Parent) close() {
 		p.child.Stop()
 	}
 	_ = os.RemoveAll(c14ShmRoot())
+	vc14.ClearImmutable(p.root)
 }
 
 func c14ShmRoot() string { return "/dev/shm/verif-c14-dhcpd-" + strconv.Itoa(os.Getpid()) }
@@ -271,20 +279,34 @@ func (p *c14Parent) gen(r *rand.Rand, emit vutil.Emit) {
 		for s := 0; s < saves; s++ {
 			size := c14Size(r)
 			seed := strconv.FormatUint(r.Uint64N(1<<40), 10)
+			// Now and then a fault: the destination directory refuses new entries
+			// (the save must fail and leave the file alone), or TMPDIR is unusable.
+			fault := ""
+			switch f := r.IntN(16); {
+			case f == 0 && p.canImm:
+				fault = "faildir"
+			case f == 1:
+				fault = "notmp"
+			}
+			probe := vc14.Probe(mode, fault)
+			commit := vutil.B(fault != "faildir")
 			switch v := r.IntN(10); {
 			case v < 5:
-				emit("C14.save", "writedb", strconv.Itoa(size), seed, "1", "0")
+				emit("C14.save", "writedb", strconv.Itoa(size), seed, commit, "0", probe)
 			case v < 8:
 				if size > 200000 {
 					size = 200000
 				}
-				emit("C14.save", "dbstore", strconv.Itoa(size), seed, "1", "0")
+				emit("C14.save", "dbstore", strconv.Itoa(size), seed, commit, "0", probe)
 			default:
 				if size > 1<<20 {
 					size = 1 << 20
 				}
+				if fault == "faildir" {
+					probe = mode
+				}
 				emit("C14.put", vutil.Hex("W/"+dbFilename), strconv.Itoa(size), seed)
-				emit("C14.save", "migrate", strconv.Itoa(size), seed, "1", "1")
+				emit("C14.save", "migrate", strconv.Itoa(size), seed, "1", "1", probe)
 			}
 		}
 	}
@@ -344,7 +366,7 @@ func (p *c14Parent) run(f []string) []string {
 		return resp
 	case "C14.save":
 		rd := vc14.StartReader(p.dest)
-		resp, events, err := p.child.Do("save", f[1], f[2], f[3])
+		resp, events, err := p.child.Do("save", f[1], f[2], f[3], f[6])
 		if err != nil || len(resp) != 5 {
 			rd.Stop("", "")
 			if err != nil {
